@@ -46,13 +46,14 @@ ValidList(ids) == /\ ((\E k \in DOMAIN ids : ids[k].kind = "wildcard") => Len(id
                   /\ \A i, j \in DOMAIN ids : (i # j /\ ids[i].kind = "x509" /\ ids[j].kind = "x509") => ~SubsetDN(ids[i].dn, ids[j].dn)
                   /\ \A i, j \in DOMAIN ids : (i # j) => ids[i] # ids[j]
 
-Mk(leaf, ids, lvl) ==
+Mk(leaf, ids, lvl, plg) ==
   [api |-> "Verify", sel |-> "ok", skip |-> FALSE, env |-> EnvOK, desc |-> BenignDesc, required |-> NoMeta, signed |-> NoMeta, level |-> lvl,
    anchor |-> "found", dn |-> [leaf |-> leaf, ids |-> ids], expired |-> FALSE, certTime |-> "valid", rev |-> "ok",
-   plugin |-> "none", verdictTI |-> "success", verdictREV |-> "success", crit |-> "none"]
+   plugin |-> plg, verdictTI |-> "success", verdictREV |-> "success", crit |-> "none"]
 
 Init == \E leaf \in Leaves : \E n \in 1..MaxIds : \E ids \in [1..n -> IdsFor(leaf)] : \E lvl \in {BaseLevel("strict"), BaseLevel("audit")} :
-          ValidList(ids) /\ s = Start(Mk(leaf, ids, lvl))
+          \* a verification plugin that only checks revocation does not take the identity check over
+          \E plg \in {"none", "REV"} : ValidList(ids) /\ s = Start(Mk(leaf, ids, lvl, plg))
 Next == s.pc # "done" /\ s' = StepFn(s)
 Spec == Init /\ [][Next]_s
 Done == s.pc = "done"
